@@ -56,6 +56,9 @@ def replay(o, tree):
     r = kernel_replay(o, tree)
     if r is not None:
         return r
+    r = expr_replay(o, tree)
+    if r is not None:
+        return r
     if not (unit.startswith((".repeat", ".include", "compile_block[", "compile_and_link_files[", "compile_include[")) or kind in ("repeat", "block", "linkfiles", "include")):
         return None
     if unit.startswith(".include") or kind == "include":
@@ -99,4 +102,44 @@ def kernel_replay(o, tree):
         return deferred_c.replay_poly_mul(cfg, w, tree)
     if k == "concat":
         return deferred_c.replay_concat(cfg, tree)
+    return None
+
+
+# ------------------------------------------------------------------ expression evaluation (operators.py)
+def expr_units():
+    """the operator bodies over all integers and the resolve() contracts of operators.py (contracts/c05.py): wherever a property's statement says
+    'the arithmetic value of the expression' (link expressions, data values, operand values)"""
+    import itertools
+    from contracts import c05
+    us = []
+    for n in c05.INFIX_NAMES:
+        us.append(("expr:body[%s]" % n, "unit_x_infix_body", dict(name=n)))
+        for lz in itertools.product((False, True), repeat=2):
+            us.append(("expr:resolve[%s,%s]" % (n, lz), "unit_x_resolve", dict(name=n, lz=lz)))
+    for n in c05.PREFIX_NAMES:
+        us.append(("expr:body[%s]" % n, "unit_x_prefix_body", dict(name=n)))
+        for lz in ((False,), (True,)):
+            us.append(("expr:resolve[%s,%s]" % (n, lz), "unit_x_resolve", dict(name=n, lz=lz)))
+    return us
+
+
+def unit_x_infix_body(eng, name):
+    from contracts import c05
+    return c05.unit_infix_body(eng, name=name)
+
+
+def unit_x_prefix_body(eng, name):
+    from contracts import c05
+    return c05.unit_prefix_body(eng, name=name)
+
+
+def unit_x_resolve(eng, name, lz):
+    from contracts import c05
+    return c05.unit_resolve(eng, name=name, lz=lz)
+
+
+def expr_replay(o, tree):
+    if (o.get("cfg") or {}).get("kind") in ("infix", "prefix", "again"):
+        from contracts import c05
+        return c05.replay(o, tree)
     return None
